@@ -54,6 +54,25 @@ def _underlying_reads(f):
     return out
 
 
+def _rel(atom, truth, lhs, rhs):
+    """Relation between lhs and rhs (texts) implied by an atom with the given truth: one of '<', '>', '<=', '>=', '==', '!=' or None.
+    Works for either operand order and for negated forms."""
+    if not (isinstance(atom, ast.Compare) and len(atom.ops) == 1):
+        return None
+    l, r, op = unparse(atom.left), unparse(atom.comparators[0]), type(atom.ops[0])
+    table = {ast.Lt: "<", ast.Gt: ">", ast.LtE: "<=", ast.GtE: ">=", ast.Eq: "==", ast.NotEq: "!="}
+    if op not in table:
+        return None
+    rel = table[op]
+    if (l, r) == (rhs, lhs):
+        rel = {"<": ">", ">": "<", "<=": ">=", ">=": "<=", "==": "==", "!=": "!="}[rel]
+    elif (l, r) != (lhs, rhs):
+        return None
+    if not truth:
+        rel = {"<": ">=", ">": "<=", "<=": ">", ">=": "<", "==": "!=", "!=": "=="}[rel]
+    return rel
+
+
 def r1(ctx):
     p = ctx.prog
     m = p.module(MOD)
@@ -268,13 +287,18 @@ def r4(ctx):
     dv = [t for t in tuple_vars_from(f, lambda e: unparse(e) == "divmod(tarinfo.size, tarfile.BLOCKSIZE)") if len(t) == 2 and all(t)]
     BL, RM = dv[0] if dv else ("blocks", "remainder")
     dm = bool(dv)
-    pad = [n for n in f.body_nodes() if isinstance(n, ast.If) and unparse(n.test) in (f"{RM} > 0", f"{RM} != 0", RM)]
+    from ..facts import facts_at as _fa
+
+    def _positive(i):
+        return any((v and unparse(a) == RM) or _rel(a, v, RM, "0") in (">", "!=") for a, v in _fa(g, i))
+
     okpad = False
-    for pd in pad:
-        w = [c for st in pd.body for c in ast.walk(st) if isinstance(c, ast.Call) and isinstance(c.func, ast.Attribute) and c.func.attr == "write"]
-        inc = [st for st in pd.body if isinstance(st, ast.AugAssign) and unparse(st.target) == BL and unparse(st.value) == "1"]
-        if w and inc and unparse(w[0].args[0]).replace(" ", "") == f"tarfile.NUL*(tarfile.BLOCKSIZE-{RM})":
-            okpad = True
+    for n in g.nodes.values():
+        for c in n.calls():
+            if isinstance(c.func, ast.Attribute) and c.func.attr == "write" and c.args and unparse(c.args[0]).replace(" ", "") == f"tarfile.NUL*(tarfile.BLOCKSIZE-{RM})":
+                incs = [m for m in g.nodes.values() if m.kind == "stmt" and isinstance(m.ast, ast.AugAssign) and unparse(m.ast.target) == BL and unparse(m.ast.value) == "1"]
+                if _positive(n.id) and incs and all(_positive(m.id) for m in incs):
+                    okpad = True
     ctx.ob("R4", "data is padded with NULs to a multiple of BLOCKSIZE", okpad and dm, func=f, node=f.node, instance="addfile:padding",
            message="member data is not padded to the 512-byte block: every later header is misaligned")
     off = [n for n in f.body_nodes() if isinstance(n, ast.AugAssign) and unparse(n.target) == "self.offset"]
@@ -319,8 +343,14 @@ def r5(ctx):
         okb = okb or all(g.path(b2, [r.id for r in reads], avoid=[s.id for s in seeks] + [g.exit]) is None or g.nodes[b2].id in [s.id for s in seeks] for b2 in tb)
     ctx.ob("R5", "next() seeks to the recorded offset before reading the next header", ok and okb, func=n, node=n.node, instance="next:seek")
     sk = p.func(f"{MOD}.SeekableStreamReaderWrapper.seek")
-    src = unparse(sk.node)
-    ok = "offset > self.position" in src and "offset < self.position" in src and "raise tarfile.ReadError" in src
+    gs = sk.cfg
+    from ..facts import facts_at as _fa2
+
+    OFF = next((a for a in sk.params if a != "self"), "offset")
+    fwd = [n for n in gs.nodes.values() if any(isinstance(c.func, ast.Attribute) and c.func.attr == "read" and unparse(c.func.value) == "self" for c in n.calls())]
+    back = [n for n in gs.nodes.values() if n.kind == "raise_stmt"]
+    ok = (bool(fwd) and all(any(_rel(a, v, OFF, "self.position") == ">" for a, v in _fa2(gs, n.id)) for n in fwd)
+          and bool(back) and any(any(_rel(a, v, OFF, "self.position") == "<" for a, v in _fa2(gs, n.id)) for n in back))
     ctx.ob("R5", "seek moves forward only and refuses to go backward", ok, func=sk, node=sk.node, instance="seek:forward-only")
     rd = p.func(f"{MOD}.TellableStreamWrapper.read")
     lp = [x for x in rd.body_nodes() if isinstance(x, ast.While)]
